@@ -5,7 +5,7 @@ use turdb::records::{RecordView, Schema};
 use turdb::storage::toast::{is_toast_pointer, needs_toast, ToastPointer, TOAST_POINTER_SIZE};
 use turdb::types::OwnedValue;
 
-// @vt prop=C11 tier=quick bound="every TOAST pointer (any total_size, any chunk id; row id < 2^48 for the row/column packing)" outside="the chunk table itself (real files)" timeout=600
+// @vt prop=C11 tier=quick bound="every TOAST pointer (any total_size, any chunk id; row id < 2^48 for the row/column packing)" outside="the chunk table itself (real files)" timeout=1800
 vt_proof! { unwind = 19; fn c11_toast_pointer_codec() {
     let p = ToastPointer { total_size: kani::any(), chunk_id: kani::any() };
     let enc = p.encode();
@@ -39,7 +39,7 @@ fn blob_roundtrip<const N: usize>() {
     core::mem::forget(vals);
 }
 
-// @vt prop=C11 tier=quick bound="inline blobs of exactly 16, 17 (= TOAST pointer size) and 18 arbitrary bytes through OwnedValue::build_record_from_values -> RecordView -> from_record_column" outside="other lengths; text columns (same inspection rule)" timeout=900 mem=16
+// @vt prop=C11 tier=quick bound="inline blobs of exactly 16, 17 (= TOAST pointer size) and 18 arbitrary bytes through OwnedValue::build_record_from_values -> RecordView -> from_record_column" outside="other lengths; text columns (same inspection rule)" timeout=1800 mem=16
 vt_proof! { unwind = 20; fn c11_inline_blob_near_pointer_size() {
     let which: u8 = kani::any(); kani::assume(which < 3);
     if which == 0 { blob_roundtrip::<16>() } else if which == 1 { blob_roundtrip::<{ TOAST_POINTER_SIZE }>() } else { blob_roundtrip::<18>() }
